@@ -264,10 +264,21 @@ def generate(contract, ov):
     loops_in_order = sorted([n for n in _ast.walk(fn) if isinstance(n, (_ast.For, _ast.While))], key=lambda n: (n.lineno, n.col_offset))
     for i, n in enumerate(loops_in_order):
         cx.loop_ids[id(n)] = i
-    st, args, kwargs, info = contract.setup(cx, I, ov)
-    st = st.gset("__class__", contract.owner_class)
-    closure = dict(info.get("closure_env", {}))       # free variables of a nested function (its enclosing scope)
-    outcomes = I.bind_params(fn, args, kwargs, st, lambda env, st2: I.block(fn.body, st2.with_env({**closure, **env})))
+    if hasattr(contract, "segment"):
+        # a cut-point contract: a statement range of the function, selected structurally from its real AST, executed from
+        # an arbitrary state described by the contract (the variables live at that point)
+        stmts = contract.segment(fn)
+        st, env, info = contract.segment_env(cx, I, ov)
+        st = st.gset("__class__", contract.owner_class)
+        outcomes = I.block(stmts, st.with_env(dict(env)))
+        seg_src = "\n".join(_ast.unparse(x) for x in stmts)
+        import hashlib as _hl
+        sha = _hl.sha256(seg_src.encode()).hexdigest()
+    else:
+        st, args, kwargs, info = contract.setup(cx, I, ov)
+        st = st.gset("__class__", contract.owner_class)
+        closure = dict(info.get("closure_env", {}))       # free variables of a nested function (its enclosing scope)
+        outcomes = I.bind_params(fn, args, kwargs, st, lambda env, st2: I.block(fn.body, st2.with_env({**closure, **env})))
     obs = []
     name0 = "%s[%s]" % (contract.cid, ov)
     cover_preds = contract.covers(cx, ov, info)
